@@ -174,23 +174,43 @@ def run(ctx):
     if len(nx) != 1:
         raise AnchorMissing("ImageIterator::next")
     ctx.fn(nx[0])
-    links, els = hir.if_chain(nx[0]["body"])
+    # the decision in any spelling (`match c {true, false}`, `if c {..} else {..}`, the comparison bound to a temporary, operands in either
+    # order); the increment either once in each branch or once before the branch (AFTER the comparison was taken)
+    nb = strip(nx[0]["body"])
+    lets_nx = hir.let_env(nx[0]["body"])
+    brs = [hir.as_branch(n) for n in hir.walk(nx[0]["body"]) if n.get("k") in ("If", "Match") and hir.as_branch(n)]
     ok = False
-    if len(links) == 1 and els is not None:
-        c = strip(links[0][0])
-        ok = c["k"] == "Binary" and c["op"] == "==" and {field_path(c["l"]), field_path(c["r"])} == {("self", "now_index"), ("self", "placeholder_index")}
 
-        def branch_ok(br, placeholder):
-            incs = [n for n in hir.walk(br) if n.get("k") == "AssignOp" and n["op"] == "+=" and field_path(n["l"]) == ("self", "now_index")
-                    and strip(n["r"])["k"] == "Lit" and strip(n["r"])["lit"]["v"] == 1]
+    def is_inc(n):
+        return n.get("k") == "AssignOp" and n["op"] in ("+=", "Add", "AddAssign") and field_path(n["l"]) == ("self", "now_index") \
+            and strip(n["r"])["k"] == "Lit" and strip(n["r"])["lit"]["v"] == 1
+    if len(brs) == 1 and brs[0][1] is not None and brs[0][2] is not None:
+        cnd, th, el = brs[0]
+        c_use = strip(cnd)
+        c = strip(hir.through_lets(cnd, lets_nx))
+        ok = c["k"] == "Binary" and c["op"] in ("==", "Eq") and {field_path(c["l"]), field_path(c["r"])} == {("self", "now_index"), ("self", "placeholder_index")}
+        all_incs = [n for n in hir.walk(nx[0]["body"]) if is_inc(n)]
+        in_th = [n for n in hir.walk(th) if is_inc(n)]
+        in_el = [n for n in hir.walk(el) if is_inc(n)]
+        per_branch = len(in_th) == 1 and len(in_el) == 1 and len(all_incs) == 2
+        # hoisted: exactly one increment, outside the branches, and the comparison was evaluated (bound to a temporary) before it
+        hoisted = False
+        if len(all_incs) == 1 and not in_th and not in_el and nb["k"] == "Block" and c_use["k"] == "Path":
+            order = []
+            for st_ in nb["stmts"]:
+                if st_["k"] == "Let" and st_["pat"].get("hid") == c_use["path"].get("hid"):
+                    order.append("cmp")
+                elif st_["k"] in ("Semi", "Expr") and is_inc(strip(st_["expr"])):
+                    order.append("inc")
+            hoisted = order == ["cmp", "inc"]
+
+        def tail_ok(br, placeholder):
             tail = hir.last_expr(br)
             if placeholder:
-                good = tail["k"] == "Call" and hir.callee_name(tail) == "Some" and any(
+                return tail["k"] == "Call" and hir.callee_name(tail) == "Some" and any(
                     x.get("k") == "Path" and hir.variant_of(x["path"]) == "Placeholder" for x in hir.walk(tail))
-            else:
-                good = tail["k"] == "MethodCall" and tail["method"] == "next" and field_path(tail["recv"]) == ("self", "raw_components")
-            return len(incs) == 1 and good
-        ok = ok and branch_ok(links[0][1], True) and branch_ok(els, False)
+            return tail["k"] == "MethodCall" and tail["method"] == "next" and field_path(tail["recv"]) == ("self", "raw_components")
+        ok = ok and (per_branch or hoisted) and tail_ok(th, True) and tail_ok(el, False)
     ctx.ob("K-IMAGEITER", "next()", ok, "shape of ImageIterator::next changed")
     nw = [it for p, it in f.hir.items() if it["name"] == "new" and "ImageIterator" in ((it.get("impl") or {}).get("self_ty") or "")]
     ok = False
